@@ -36,13 +36,14 @@ FIELDS = ["jobId", "eventId", "eventType", "timestamp", "previousEventIds", "app
 CFG_ORDER = ["jobId", "eventId", "eventType", "timestamp", "previousEventIds", "applicationName", "jobName"]
 
 
-def gen_workflow(r: Any, name: str, k0: int, async_flag: bool, reorder: bool = False) -> list[dict[str, Any]]:
+def gen_workflow(r: Any, name: str, k0: int, async_flag: bool, reorder: bool = False, many: bool = False
+                 ) -> list[dict[str, Any]]:
     """traces of one workflow: a root with 2-4 child calls, one of them optional / alternative, some nested"""
     kids = [f"{name[:1].upper()}{c}" for c in "BCDE"[: r.choice([2, 3, 4])]]
     alt = r.choice(kids)
     pad = r.choice(["x", "x", " ", "  y", "\t"])
     spans = []
-    n_traces = r.choice([2, 3, 4])
+    n_traces = r.choice([10, 12, 14]) if many else r.choice([2, 3, 4])    # many: file numbers reach two digits
     nested_all = r.random() < 0.5
     # reorder: the calls keep their names and stored order but run in another order in some traces; the traces
     # then differ only in their links, never in the list of event types
@@ -88,6 +89,9 @@ def gen_case(ctx: Ctx, k: int) -> dict[str, Any]:
     # root makes (1, 2 or 3): the same typed edges in every trace, different multiplicities.  Judged like the
     # reorder cases (files and models), the diagrams carry branch counts the Lean semantics does not model.
     fanout = k % 6 == 1
+    # every eighth case: `otel2pv -se` is run TWICE into the same output folder (a user repeating the command) and the
+    # first workflow has 10-14 traces; the saved files after the second run must still be the stream's
+    rerun = k % 8 == 3
     # names with spaces, capitals, dashes, and with characters that mean something to glob / regex when a path built
     # from the name is taken as a pattern ("ready?" next to "ready1", a bracket group)
     pool = ["wf", "order flow", "Billing", "a b c", "x-1", "orders[eu]", "ready?", "ready1"]
@@ -111,7 +115,7 @@ def gen_case(ctx: Ctx, k: int) -> dict[str, Any]:
                     spans.append(mk("FB", f"{jid}.b{c}", 100 + 10 * c, 2000 + 10 * c, rid))     # overlapping
                 spans.append(mk("FC", f"{jid}.c", 3000, 3500, rid))
         else:
-            spans += gen_workflow(r, n, k * 100 + i * 10, async_flag, reorder)
+            spans += gen_workflow(r, n, k * 100 + i * 10, async_flag, reorder, many=rerun and i == 0)
     reorder = reorder or fanout     # same judging rule
     if fanout:
         ctx.tick("kind_fanout")
@@ -149,8 +153,10 @@ def gen_case(ctx: Ctx, k: int) -> dict[str, Any]:
     ctx.tick("mapping_custom" if custom else "mapping_default")
     ctx.tick("async" if async_flag else "sync")
     ctx.tick("kind_reorder_or_fanout" if reorder else "kind_alternatives")
+    if rerun:
+        ctx.tick("otel2pv_twice_into_one_folder")
     return {"names": names, "spans": spans, "async": async_flag, "mapping": mapping, "k": k, "reorder": reorder,
-            "seq_opts": seq_opts}
+            "seq_opts": seq_opts, "rerun": rerun}
 
 
 def write_inputs(tmp: str, case: dict[str, Any]) -> dict[str, str]:
@@ -265,6 +271,17 @@ def evaluate(ctx: Any, cases: list[dict[str, Any]], tmp: str) -> None:
     reps = pvlib.run_requests(reqs)
     for i, c in enumerate(cases):
         c["r1"], c["r2a"], c["mem"] = reps[3 * i], reps[3 * i + 1], reps[3 * i + 2]
+    # the cases whose otel2pv -se is given twice: the second run into the folder the first one filled
+    again = [i for i, c in enumerate(cases) if c.get("rerun") and not ("error" in c["r2a"] or c["r2a"].get("exit"))]
+    if again:
+        reqs2 = []
+        for i in again:
+            p = cases[i]["paths"]
+            mc = ["-mc", p["mapping"]] if "mapping" in p else []
+            reqs2.append({"op": "cli", "argv": ["-o", os.path.join(p["dir"], "out2"), "otel2pv", "-c", p["config"], "-se"] + mc,
+                          "hash_seed": 0, "timeout": 120})
+        for i, rp in zip(again, pvlib.run_requests(reqs2)):
+            cases[i]["r2a"] = rp
     # route 2b: pv2puml per workflow folder
     reqs, meta = [], []
     for i, c in enumerate(cases):
@@ -428,7 +445,7 @@ def run(ctx: Ctx) -> None:
             if c["bad"]:
                 ctx.violation(c["bad"], {"input": {"spans": c["spans"], "names": c["names"], "mapping": c["mapping"],
                                                    "async": c["async"], "sequencer": c.get("seq_opts"),
-                                                   "reorder": c["reorder"]}})
+                                                   "reorder": c["reorder"], "rerun": c.get("rerun", False)}})
     finally:
         shutil.rmtree(tmp, ignore_errors=True)
     ctx.assumptions += [
@@ -465,7 +482,8 @@ def replay(data: dict[str, Any]) -> int:
             return 1
         else:
             c = {"names": inp["names"], "spans": inp["spans"], "async": inp["async"], "mapping": inp.get("mapping"),
-                 "k": 1, "reorder": bool(inp.get("reorder")), "seq_opts": inp.get("sequencer") or {}}
+                 "k": 1, "reorder": bool(inp.get("reorder")), "seq_opts": inp.get("sequencer") or {},
+                 "rerun": bool(inp.get("rerun"))}
             q = _Quiet()
             evaluate(q, [c], tmp)
             bad = c["bad"] or (q.said[0] if q.said else None)
